@@ -6,8 +6,8 @@ import HypatiaModel.Spec.FacetSpec
 /-!
 # Specification vocabulary for the catalog (C12)
 
-**Fan-out.**  Each index is looked at *on its own*: `project pre e op` is the list of calls
-(none or one) that the index `e`, standing behind the indexes `pre`, receives for the catalog
+**Fan-out.**  Each index is looked at *on its own*: `project pre disc op` is the list of calls
+(none or one) that an index with discriminator `disc`, standing behind the indexes `pre`, receives for the catalog
 call `op`, with the value *its own* discriminator extracts; `standalone` performs exactly
 these calls on every index separately.  An index sees an `index`/`reindex` call iff the docid
 is an integer (`bool` counts: Python's `bool` is an `int`; the id is then 1 / 0) and no index
@@ -45,15 +45,21 @@ def stepOp (ix : Index) : IxOp → Index
 
 def runOps (ix : Index) (ops : List IxOp) : Index := ops.foldl stepOp ix
 
-/-- this index raises for this document -/
-def raises (e : Entry Doc) (obj : Doc) : Bool := e.ix.kind.rejects (e.disc obj)
+/-- what the fan-out needs to know of an index standing in front: its kind and discriminator -/
+abbrev Cfg (Doc : Type) := Kind × (Doc → Disc)
 
-/-- the calls index `e` (behind the indexes `pre`) receives for one catalog call -/
-def project (pre : List (Entry Doc)) (e : Entry Doc) : Op Doc → List IxOp
+def cfgOf (e : Entry Doc) : Cfg Doc := (e.ix.kind, e.disc)
+
+/-- an index of this kind with this discriminator raises for this document -/
+def raises (k : Cfg Doc) (obj : Doc) : Bool := k.1.rejects (k.2 obj)
+
+/-- the calls an index with discriminator `disc`, standing behind indexes `pre`, receives for one
+catalog call -/
+def project (pre : List (Cfg Doc)) (disc : Doc → Disc) : Op Doc → List IxOp
   | .index d obj | .reindex d obj =>
     match assertint d with
     | none => []
-    | some n => if pre.any (raises · obj) then [] else [.index n (e.disc obj)]
+    | some n => if pre.any (raises · obj) then [] else [.index n (disc obj)]
   | .unindex d =>
     match assertint d with
     | none => []
@@ -61,17 +67,17 @@ def project (pre : List (Entry Doc)) (e : Entry Doc) : Op Doc → List IxOp
   | .reset => [.reset]
 
 /-- every index on its own, each with its own projected history -/
-def standalone (pre : List (Entry Doc)) : List (Entry Doc) → List (Op Doc) → List (Entry Doc)
+def standalone (pre : List (Cfg Doc)) : List (Entry Doc) → List (Op Doc) → List (Entry Doc)
   | [], _ => []
   | e :: es, h =>
-    { e with ix := runOps e.ix (h.flatMap (project pre e)) } :: standalone (pre ++ [e]) es h
+    { e with ix := runOps e.ix (h.flatMap (project pre e.disc)) } :: standalone (pre ++ [cfgOf e]) es h
 
-/-- the exception of one catalog call: bad docid, else the first index that raises -/
+/-- the exception of one catalog call: bad docid, else that of the first index that raises -/
 def raised (c : Cat Doc) : Op Doc → Option Err
   | .index d obj | .reindex d obj =>
     match assertint d with
     | none => some .valueError
-    | some _ => (c.find? (raises · obj)).bind (fun e => e.ix.kind.error (e.disc obj))
+    | some _ => (c.find? (fun e => raises (cfgOf e) obj)).bind (fun e => e.ix.kind.error (e.disc obj))
   | .unindex d =>
     match assertint d with
     | none => some .valueError
